@@ -124,7 +124,13 @@ def explicit_rejection(res):
         return False
     err = res.get('error', '')
     kind = err.split(':')[0]
-    return kind in ('TypeError', 'NotImplementedError') or (kind == 'AssertionError' and 'not implemented' in err)
+    if kind in ('TypeError', 'NotImplementedError') or (kind == 'AssertionError' and 'not implemented' in err):
+        return True
+    # a ValueError raised by the vform layer while the expression is being BUILT (inside parse_vf's eval, before any code
+    # is generated), e.g. grad() of a bare literal: "could not automatically determine dimensions" -- the form is refused
+    # with an explicit message, it is not an accepted form that fails to build
+    tr = res.get('trace', '')
+    return kind == 'ValueError' and 'in parse_vf' in tr and 'vf.add(eval(expr' in tr and 'codegen' not in tr and 'compile.py' not in tr
 
 
 def run_child(ctx, job):
